@@ -378,7 +378,7 @@ ODD_PROP_VALS = ["PRES", "Sg", "GROẞ", "Σ", "İ", "ＳＧ"]
 ROLES = ["ARG1", "ARG2", "ARG3", "BV", "L-INDEX", "R-INDEX", "LBL", "BODY", "CARG", "ARG", "RSTR", "L-HNDL", "ARG0", "MOD",
          "A", "Z"] + U_UPPER
 ODD_ROLES = ["arg1", "Arg2", "bv", "lbl", "ſ", "straße", "arg-σ", "ﬁ", "ａｒｇ１", "lbł", "\u00e9"]
-CARGS = ["Kim", "", 'a"b', "a\\", '\\"', "x y", "é", "(", '")', '"', "\\\\", " ", 'a\\"b', "1984", "a\\b", '""',
+CARGS = ["Kim", " Kim", "Kim ", "", 'a"b', "a\\", '\\"', "x y", "é", "(", '")', '"', "\\\\", " ", 'a\\"b', "1984", "a\\b", '""',
          "\\", "(\"x\")", "\U0001F600", "{", "}[", "a:b", "<0:1>", "|", "#1", "Straße", "ΣΟΦΟΣ ς", "ﬁ ſ", "İı",
          "caf\u00e9 cafe\u0301", "ＡＢｃ", "ẞ\"ß\\"]
 CARG_ALPHA = ['"', "\\", "a", "b", " ", "(", ")", "{", "é", ":", "<", ">", "|", "#", ",", "[", "]", "'", "\t"]
@@ -781,7 +781,13 @@ def fixed_cases():
     c7 = je("instance", [jn("instance", "p", "type", [("ARG1", "type"), ("ARG2", "lnk")]), jn("type", "q", "x", [], [], "carg"),
                          jn("lnk", "r", "x", [("ARG1", "carg")]), jn("carg", "s", "x")])
     c8 = je("a", [jn("a", "a", "x"), jn("b", "a", "x", [("ARG2", "a")])])      # predicate = identifier (F40 shape)
-    for g in (g1, g2, g3, g4, g5, g6, g7, g8, g9, g10, g11, g12, g13, c1, c2, c3, c4, c5, c6, c7, c8):
+    # constants with leading / trailing blanks, the blank alone; constant nodes with and without alignment under a top
+    k1 = je("x", [jn("x", "named", "x", [("ARG1", "y"), ("ARG2", "z")], [], " Kim", L(0, 3)),
+                  jn("y", "named", "x", [], [], "Kim "), jn("z", "card", "i", [], [], " ", L(4, 5))])
+    k2 = je("x", [jn("x", "named", "x", [], [], "Kim")])
+    k3 = je("e", [jn("e", "_rain_v_1", "e", [("ARG1", "x")], [("TENSE", "past")], None, L(0, 4)),
+                  jn("x", "named", "x", [], [("PERS", "3")], "Kim", L(5, 8))])
+    for g in (g1, g2, g3, g4, g5, g6, g7, g8, g9, g10, g11, g12, g13, c1, c2, c3, c4, c5, c6, c7, c8, k1, k2, k3):
         for o in all_opts():
             out.append({"kind": "native", "eds": g, "opts": o})
         for p, l, i in itertools.product([True, False], repeat=3):
@@ -791,6 +797,13 @@ def fixed_cases():
         out.append({"kind": "docs", "docs": [g1, g3, g8, g5, g2], "opts": o, "fmt": "native"})
         out.append({"kind": "docs", "docs": [], "opts": o, "fmt": "native"})
         out.append({"kind": "docs", "docs": [g9, g9], "opts": o, "fmt": "native"})
+    # list API with properties != lnk (a positional swap in dumps / dump shows only here)
+    for p_, l_ in ((True, False), (False, True)):
+        for s_, i_ in ((True, True), (False, False)):
+            o_ = {"properties": p_, "lnk": l_, "show_status": s_, "indent": i_}
+            out.append({"kind": "docs", "docs": [g1, g9, k1, k3], "opts": o_, "fmt": "native"})
+            out.append({"kind": "docs", "docs": [g1, g2, k1, k3], "opts": o_, "fmt": "json"})
+            out.append({"kind": "docs", "docs": [g1, g2, k1, k3], "opts": o_, "fmt": "penman"})
     for fmt in ("json", "penman"):
         out.append({"kind": "docs", "docs": [g1, g2, g7], "opts": {"properties": True, "lnk": True, "show_status": False,
                                                                    "indent": False}, "fmt": fmt})
